@@ -184,8 +184,8 @@ Proof.
   subst j. unfold idx_1_55. apply in_map. apply in_seq. lia.
 Qed.
 
-(* what util/random/csharp.rs says now (regenerated by tools/extract.py on every run): the statements
+(* what util/random/{csharp,osu}.rs say now (regenerated by tools/extract.py on every run): the statements
    Model/Prng.v transcribes - including the two guards of internal_sample, which recorded call
    sequences practically never reach - are present verbatim *)
-Lemma tables_prng_facts : forallb snd Tables.prng_facts = true /\ (8 <= List.length Tables.prng_facts)%nat.
+Lemma tables_prng_facts : forallb snd Tables.prng_facts = true /\ (14 <= List.length Tables.prng_facts)%nat.
 Proof. split; [vm_compute; reflexivity|vm_compute; lia]. Qed.
